@@ -23,6 +23,13 @@ def eval_program(arg) -> dict:
     common.import_dznpy()
     want_mc = stream % 4 == 3
     prog, case, _rng = progrun.make_program(PROP, seed, stream, scratch, want_mc)
+    # cover every semantics/direction combination in every run, whatever the random draw
+    if stream % 3 == 0:
+        prog.enc['requires'] = {'sts': 'NONE', 'mts': 'ALL'}
+    elif stream % 3 == 1 and not prog.enc.get('multiclient'):
+        prog.enc['provides'] = {'sts': 'ALL', 'mts': 'NONE'}
+        prog.enc['requires'] = {'sts': 'REMAINING', 'mts': 'NONE'}
+    case['cfg'] = prog.enc
     out = {'violations': [], 'counts': {}}
     flavor = 'asan'
     if not progrun.build_or_report(prog, case, out, [flavor]):
